@@ -406,7 +406,7 @@ pub fn audit(first: &Result<(), String>, first_trace: &[String], rerun: &dyn Fn(
             let key = split_key(e).0;
             let mut violating = 1;
             let mut runs = 1;
-            for i in 0..8 {
+            for i in 0..64 {
                 runs += 1;
                 let again = rerun();
                 let same = match &again {
@@ -422,7 +422,7 @@ pub fn audit(first: &Result<(), String>, first_trace: &[String], rerun: &dyn Fn(
                     return Audit::FlakyViolation { what: e.clone(), violating_runs: violating, runs };
                 }
             }
-            Audit::Diverged(format!("a violation ({key}) did not show again in 8 replays of the same choice sequence"))
+            Audit::Diverged(format!("a violation ({key}) did not show again in 64 replays of the same choice sequence"))
         }
     }
 }
